@@ -299,7 +299,7 @@ func (w *c02World) step() {
 				return
 			}
 			cl.links[name] = key.Key + "/" + chanStr
-			if sub && model.Permitted(key, model.PermRead, lv, time.Now()) {
+			if sub && model.Permitted(key, model.PermRead, lv, time.Now()) && key.Perms&model.PermExtend == 0 {
 				cl.subs[filterKey(lv)] = true
 			}
 			cl.expect = append(cl.expect, "LINKRESP ok "+name)
